@@ -475,6 +475,20 @@ inline J jparse(const std::string& s) {
     return p.parse();
 }
 
+} // namespace ys
+#include <sys/time.h>
+namespace ys {
+// watchdog in CPU time of this process (not wall-clock: a loaded machine
+// must never turn a slow run into a failure); SIGPROF kills a run that spins
+inline void cpu_alarm(int seconds) {
+    struct itimerval it;
+    it.it_interval.tv_sec = 0;
+    it.it_interval.tv_usec = 0;
+    it.it_value.tv_sec = seconds;
+    it.it_value.tv_usec = 0;
+    setitimer(ITIMER_PROF, &it, nullptr);
+}
+
 inline std::string read_file(const std::string& path) {
     FILE* f = fopen(path.c_str(), "rb");
     if (!f)
